@@ -100,6 +100,96 @@ def run_case(ctx, h, tmp, nobj_max):
                     'document_head': open(path, encoding='utf-8').read()[:400]})
 
 
+def restructure(rng, res):
+    """move things around in a model that has been saved, without touching a value: rotate a many-valued containment, move a
+    child to another container that can hold it, rotate the roots.  -> what was done (for the replay), [] if nothing could be"""
+    def subtree(o):
+        out = [o]
+        for c in o.eContents:
+            out += subtree(c)
+        return out
+    done = []
+    for _ in range(rng.randint(1, 3)):
+        objs = [o for r in res.contents for o in subtree(r)]
+        k = rng.random()
+        if k < .45:
+            cands = [(o, f) for o in objs for f in sorted(o.eClass.eAllReferences(), key=lambda f: f.name)
+                     if f.containment and f.many and len(o.eGet(f)) >= 2]
+            if cands:
+                o, f = rng.choice(cands)
+                coll = o.eGet(f)
+                c = coll[0]
+                coll.remove(c)
+                coll.append(c)
+                done.append(f'first child of {o.eClass.name}.{f.name} moved to the end')
+        elif k < .8:
+            kids = [c for c in objs if c.eContainer() is not None]
+            rng.shuffle(kids)
+            for c in kids[:4]:
+                inside = subtree(c)
+                slots = [(p, g) for p in objs if not any(p is x for x in inside)
+                         for g in sorted(p.eClass.eAllReferences(), key=lambda f: f.name)
+                         if g.containment and g.many and g.eOpposite is None and isinstance(c, g.eType.python_class)
+                         and not (p is c.eContainer() and g is c.eContainmentFeature())]
+                if slots:
+                    p, g = rng.choice(slots)
+                    p.eGet(g).insert(0, c)
+                    done.append(f'a {c.eClass.name} moved to the front of {p.eClass.name}.{g.name}')
+                    break
+        elif len(res.contents) >= 2:
+            r = res.contents[0]
+            res.remove(r)
+            res.append(r)
+            done.append('first root moved to the end')
+    return done
+
+
+def resave_case(ctx, tag, h, tmp, fmt):
+    """save, restructure the model in memory, save the same resource again, load: the second document describes the model
+    as it is now (nothing computed for the first save may be reused when it no longer holds)"""
+    from pyecore.resources import ResourceSet, URI
+    from pyecore.resources.json import JsonResource
+    rng = common.sub_rng(ctx.seed, tag, 'resave', h)
+    sp = models.gen_mmspec(rng, h)
+    m = models.gen_model(rng, sp, nobj=rng.randint(4, 10), values='safe')
+    use_uuid = rng.random() < .2
+    rset = ResourceSet()
+    rset.resource_factory['json'] = lambda uri: JsonResource(uri)
+    path = os.path.join(tmp, f'resave.{fmt}')
+    res = rset.create_resource(URI(path))
+    res.use_uuid = use_uuid
+    for r in m.roots:
+        res.append(r)
+    rep = {'case': h, 'format': fmt, 'uuid': use_uuid}
+    try:
+        res.save()
+        done = restructure(rng, res)
+        if not done:
+            ctx.count('resave/nothing-to-move')
+            return
+        rep['moves'] = done
+        ctx.evaluations += 1
+        now = models.canon(list(res.contents))
+        res.save()
+        rset2 = ResourceSet()
+        rset2.resource_factory['json'] = lambda uri: JsonResource(uri)
+        rset2.metamodel_registry[m.pk.nsURI] = m.pk
+        res2 = rset2.get_resource(URI(path))
+        after = models.canon(res2.contents)
+    except Exception as e:
+        import traceback
+        tb = [l for l in traceback.format_exc().strip().splitlines() if 'pyecore' in l]
+        ctx.violate({'clause': 'resave-raised', 'error': type(e).__name__},
+                    f'save / restructure / save / load raised {type(e).__name__}: {str(e)[:80]} at {tb[-1].strip() if tb else ""}', rep)
+        return
+    ctx.count('resave/' + fmt)
+    ctx.nontriv(('resave', h))
+    d = models.diff_canon(now, after)
+    if d:
+        ctx.violate({'clause': 'second-save-stale', 'format': fmt},
+                    f'after {done}, the second save of the same {fmt} resource does not describe the model as it is: {d}', rep)
+
+
 def enc(s):
     return '_' if s == '' else ','.join(str(ord(c)) for c in s)
 
@@ -344,6 +434,8 @@ def run(ctx):
             run_case(ctx, h, tmp, 10 if ctx.quick() else 25)
         layer_correspondence(ctx, tmp)
         doc_layer(ctx, tmp)
+        for h in range(80 if ctx.quick() else 1500):
+            resave_case(ctx, 'C08', h, tmp, 'xmi')
     finally:
         shutil.rmtree(tmp, ignore_errors=True)
 
